@@ -88,6 +88,22 @@ def one(rep, prog, cfg):
                 rep.fail("C04.lossless-queue", "%s/%s:%s" % (cfg, fn_name(prog, co), ns[0].rsplit("::", 2)[-2] + "::" + ns[0].rsplit("::", 1)[-1]),
                          co.loc(co.blocks[bb]["ts"]),
                          "events are handed over with %s: when the queue is full (or a value is overwritten) reported changes are dropped silently" % ns[0])
+    # nobody but the conversion removes fields from a reply frame: a consuming accessor elsewhere in the loop functions
+    # (also inside the arguments of a logging macro, which are only evaluated when that level is enabled) takes a
+    # `changed` entry away before it can become an event
+    n_scanned = 0
+    for f in res["fns"]:
+        co = an.coroutine_of(f)
+        if co is None:
+            continue
+        for fb in family(prog, prog.bodies.get(co.root, co)):
+            n_scanned += 1
+            for bb, t in fb.calls():
+                if GET in callee_names(t):
+                    rep.fail("C04.all-changed", "%s/%s consumes a reply field outside the conversion" % (cfg, fn_name(prog, co)), fb.loc(fb.blocks[bb]["ts"]),
+                             "%s removes a field from the reply frame with Frame::get outside %s: that entry can no longer be delivered as an event "
+                             "(Frame::find reads without removing)" % (fn_name(prog, co), FROM_FRAME))
+    rep.floor("C04.all-changed", cfg + "/loop bodies scanned for consuming accessors", n_scanned, 4)
     for co, bb, agg in sites:
         g = Cfg(co)
         fl = Flow(co)
